@@ -8,7 +8,7 @@ CONSTANTS
  T = 1
  Strict = FALSE
  Mode = "byz"
- HonP <- PolysConst
- DevP <- PolysConst
+ HonP <- PolysOne
+ DevP <- PolysOne
 INVARIANTS Holds
 CHECK_DEADLOCK FALSE
